@@ -1,0 +1,111 @@
+/*
+ * Verification hooks (whole file compiled only with -DDISPATCH_VERIF=1).
+ *
+ * - storage for the atomic trace / yield callbacks of shims/verif_atomic.h
+ * - accessor for the static atomic-site table (ELF section "dva_sites")
+ * - exported wrappers that run the static-inline dq_state transition
+ *   functions of inline_internal.h on a caller-supplied state word, so a
+ *   test harness can compare them with a model, word for word.
+ */
+
+#include "internal.h"
+
+#if DISPATCH_VERIF
+
+#pragma clang diagnostic ignored "-Wmissing-prototypes"
+#pragma clang diagnostic ignored "-Wmissing-variable-declarations"
+#pragma clang diagnostic ignored "-Wconversion"
+#pragma clang diagnostic ignored "-Wsign-conversion"
+#pragma clang diagnostic ignored "-Wunused-result"
+
+#define DV_EXPORT __attribute__((visibility("default")))
+
+DV_EXPORT _dispatch_verif_atomic_cb_t _dispatch_verif_atomic_cb = 0;
+DV_EXPORT void (*_dispatch_verif_yield_cb)(const volatile void *addr,
+		const char *func, int line) = 0;
+
+extern const struct _dispatch_verif_site_s __start_dva_sites[];
+extern const struct _dispatch_verif_site_s __stop_dva_sites[];
+
+DV_EXPORT const struct _dispatch_verif_site_s *
+_dispatch_verif_sites(size_t *n)
+{
+	*n = (size_t)(__stop_dva_sites - __start_dva_sites);
+	return __start_dva_sites;
+}
+
+DV_EXPORT uint32_t
+_dispatch_verif_tid_self(void)
+{
+	return _dispatch_lock_value_for_self();
+}
+
+enum {
+	DV_DQ_DRAIN_TRY_LOCK = 1,      // arg = invoke flags; ret = owned
+	DV_DQ_TRY_ACQUIRE_BARRIER_SYNC,// arg = tid; ret = bool
+	DV_DQ_TRY_ACQUIRE_BARRIER_SYNC_AND_SUSPEND, // arg = tid | (suspend_count << 32)
+	DV_DQ_RESERVE_SYNC_WIDTH,
+	DV_DQ_TRY_RESERVE_SYNC_WIDTH,  // arg = 1 if dq_items_tail is non-NULL
+	DV_DQ_TRY_ACQUIRE_ASYNC,
+	DV_DQ_TRY_UPGRADE_FULL_WIDTH,  // arg = owned
+	DV_DQ_DRAIN_TRY_UNLOCK,        // arg = owned; arg2 = done
+	DV_DQ_TRY_INACTIVE_SUSPEND,
+};
+
+/*
+ * Runs one dq_state transition function on a scratch lane whose dq_state and
+ * dq_width are the given values; returns the function's result and stores the
+ * resulting dq_state.
+ */
+DV_EXPORT uint64_t
+_dispatch_verif_dq_op(int op, uint64_t state, uint16_t width, uint64_t arg,
+		uint64_t arg2, uint64_t *new_state)
+{
+	static __thread struct dispatch_lane_s *dl;
+	uint64_t ret = 0;
+	if (!dl) dl = calloc(1, sizeof(struct dispatch_lane_s));
+	dl->dq_state = state;
+	*(uint16_t *)(uintptr_t)&dl->dq_width = width;
+	dl->dq_items_tail = NULL;
+	switch (op) {
+	case DV_DQ_DRAIN_TRY_LOCK:
+		ret = _dispatch_queue_drain_try_lock((dispatch_queue_t)dl,
+				(dispatch_invoke_flags_t)arg);
+		break;
+	case DV_DQ_TRY_ACQUIRE_BARRIER_SYNC:
+		ret = _dispatch_queue_try_acquire_barrier_sync(dl, (uint32_t)arg);
+		break;
+	case DV_DQ_TRY_ACQUIRE_BARRIER_SYNC_AND_SUSPEND:
+		ret = _dispatch_queue_try_acquire_barrier_sync_and_suspend(dl,
+				(uint32_t)arg, arg >> 32);
+		break;
+	case DV_DQ_RESERVE_SYNC_WIDTH:
+		_dispatch_queue_reserve_sync_width(dl);
+		break;
+	case DV_DQ_TRY_RESERVE_SYNC_WIDTH:
+		if (arg) dl->dq_items_tail = (void *)dl;
+		ret = _dispatch_queue_try_reserve_sync_width(dl);
+		dl->dq_items_tail = NULL;
+		break;
+	case DV_DQ_TRY_ACQUIRE_ASYNC:
+		ret = _dispatch_queue_try_acquire_async(dl);
+		break;
+	case DV_DQ_TRY_UPGRADE_FULL_WIDTH:
+		ret = _dispatch_queue_try_upgrade_full_width(dl, arg);
+		break;
+	case DV_DQ_DRAIN_TRY_UNLOCK:
+		ret = _dispatch_queue_drain_try_unlock((dispatch_queue_t)dl, arg,
+				(bool)arg2);
+		break;
+	case DV_DQ_TRY_INACTIVE_SUSPEND:
+		ret = _dispatch_lane_try_inactive_suspend(dl);
+		break;
+	default:
+		ret = ~0ull;
+		break;
+	}
+	*new_state = dl->dq_state;
+	return ret;
+}
+
+#endif // DISPATCH_VERIF
